@@ -169,7 +169,8 @@ def main():
     _G.update(EoN=EoN, tier=tier)
     rng = pyrandom.Random(chk.seed + 14)
     # ---- simulators driven by deterministic rules: the relabelled run must be the same spec behaviour ----
-    base = event_scn.sir_scenarios(chk.seed + 1, 250 if tier == "quick" else 1500, sizes=(3, 4, 5), exhaustive2=False)
+    base = [s for s in event_scn.sir_scenarios(chk.seed + 1, 340 if tier == "quick" else 2000, sizes=(3, 4, 5), exhaustive2=False)
+            if not s.get("directed")]
     # spec-level symmetry: TLC evaluates the reference on s and on pi(s); the outcomes must commute with pi
     perms = []
     sir = []
